@@ -167,8 +167,10 @@ type verifC16Row struct {
 	Opened     bool            `json:"opened"` // the child reported its Open
 	Acks       []int           `json:"acks"`   // per writer: number of calls seen to return nil (a prefix of its steps)
 	Errs       int             `json:"errs"`
-	Deferred   bool            `json:"deferred"`    // the next writer was started right after this kill; verified at a later reopen
-	LaterKills int             `json:"later_kills"` // kills between this one and the reopen that verified it
+	AimedAt    []string        `json:"aimed_at,omitempty"`   // zero-length log files seen at the instant of an aimed kill
+	EmptyLeft  []string        `json:"empty_left,omitempty"` // zero-length log files in the directory after the kill
+	Deferred   bool            `json:"deferred"`             // the next writer was started right after this kill; verified at a later reopen
+	LaterKills int             `json:"later_kills"`          // kills between this one and the reopen that verified it
 	ReopenOK   bool            `json:"reopen_ok"`
 	ReopenMs   int             `json:"reopen_ms"`
 	Checked    int             `json:"checked"` // identifiers looked up after this reopen (this cycle's + a sample of earlier cycles')
@@ -186,6 +188,20 @@ type verifC16Pending struct {
 type verifC16Expect struct {
 	id    vaa.VAAID
 	bytes string // hex of the value every later lookup must return
+}
+
+// zero-length memtable (.mem) and value log (.vlog) files in dir
+func verifC16EmptyLogFiles(dir string) []string {
+	var out []string
+	ents, _ := os.ReadDir(dir)
+	for _, e := range ents {
+		if strings.HasSuffix(e.Name(), ".mem") || strings.HasSuffix(e.Name(), ".vlog") {
+			if fi, err := e.Info(); err == nil && fi.Size() == 0 {
+				out = append(out, e.Name())
+			}
+		}
+	}
+	return out
 }
 
 func verifC16Marshal(v *vaa.VAA) string {
@@ -247,7 +263,34 @@ func TestVerifC16(t *testing.T) {
 			row.KillMode = "after-start" // may hit process start, Open (replay of what the previous kill left) or the first stores
 			row.DelayMs = rng.below(250)
 		}
+		if row.KillMode == "after-first-ack" && rng.below(4) == 0 {
+			// aimed: the moment a zero-length memtable / value log file is visible in the directory (the engine is inside the
+			// creation or deletion of one of its log files), else after the delay
+			row.KillMode = "aimed-at-empty-log-file"
+			row.DelayMs = 400 + rng.below(600) // from the start of the process: the window opens during Open and the first flush
+			if rng.below(2) == 0 {
+				// only once the writer's Open has returned: aims at the background flush deleting the replayed memtable file
+				row.KillMode = "aimed-at-empty-log-file-after-open"
+			}
+		}
 		deadline := time.After(30 * time.Second)
+		if row.KillMode == "aimed-at-empty-log-file-after-open" {
+		waitopen:
+			for {
+				select {
+				case l, ok := <-lines:
+					if !ok {
+						break waitopen
+					}
+					got = append(got, l)
+					if l == "open" {
+						break waitopen
+					}
+				case <-deadline:
+					break waitopen
+				}
+			}
+		}
 		if row.KillMode == "after-first-ack" {
 		wait:
 			for {
@@ -266,13 +309,24 @@ func TestVerifC16(t *testing.T) {
 				}
 			}
 		}
-		time.Sleep(time.Duration(row.DelayMs) * time.Millisecond)
+		if strings.HasPrefix(row.KillMode, "aimed-at-empty-log-file") {
+			until := time.Now().Add(time.Duration(row.DelayMs) * time.Millisecond)
+			for time.Now().Before(until) {
+				if n := verifC16EmptyLogFiles(dir); len(n) > 0 {
+					row.AimedAt = n
+					break
+				}
+			}
+		} else {
+			time.Sleep(time.Duration(row.DelayMs) * time.Millisecond)
+		}
 		cmd.Process.Kill()
 		cmd.Wait()
 		for l := range lines {
 			got = append(got, l)
 		}
 		pr.Close()
+		row.EmptyLeft = verifC16EmptyLogFiles(dir)
 		// what the child was seen to complete
 		acked := make([]map[int]bool, verifC16Writers)
 		for g := range acked {
@@ -309,7 +363,11 @@ func TestVerifC16(t *testing.T) {
 		d, err := Open(dir)
 		reopenMs := int(time.Since(t0) / time.Millisecond)
 		if err != nil {
-			row.Mon = append(row.Mon, "the store did not reopen after the kill: "+err.Error())
+			e := err.Error()
+			if i := strings.Index(e, "\n"); i > 0 {
+				e = e[:i]
+			}
+			row.Mon = append(row.Mon, fmt.Sprintf("the store did not reopen after the kill (zero-length log files left by the kill: %v): %s", row.EmptyLeft, e))
 			for _, pc := range pending {
 				enc.Encode(pc.row)
 			}
@@ -450,26 +508,39 @@ func TestVerifC16(t *testing.T) {
 		}
 		pending = nil
 	}
-	// what a kill inside the engine's creation (or deletion) of a memtable file leaves behind: a zero-length NNNNN.mem
-	// (seen for real in kill cycle 204 of a thorough run); the store must reopen on it, with everything still there
-	{
+	// what a kill inside the engine's creation or deletion of its log files leaves behind: zero-length NNNNN.mem / NNNNNN.vlog
+	// files (badger creates such a file and sizes it afterwards, and deletes one with Truncate(0) followed by Remove).
+	// One such file was seen for real in kill cycle 204 of a thorough run; two at once (the background flush deleting the old
+	// memtable file while Open creates the next value log file) by an aimed kill.  The store must reopen on every such state,
+	// with everything still there.
+	for _, plant := range [][]string{{"mem"}, {"mem", "vlog"}, {"mem", "mem", "vlog"}, {"vlog", "vlog"}} {
 		row := map[string]interface{}{"k": "leftover"}
 		mon := []string{}
-		maxFid := 0
+		maxFid := map[string]int{}
 		if ents, err := os.ReadDir(dir); err == nil {
 			for _, e := range ents {
-				if strings.HasSuffix(e.Name(), ".mem") {
-					if n, err := strconv.Atoi(strings.TrimSuffix(e.Name(), ".mem")); err == nil && n > maxFid {
-						maxFid = n
+				for _, ext := range []string{"mem", "vlog"} {
+					if strings.HasSuffix(e.Name(), "."+ext) {
+						if n, err := strconv.Atoi(strings.TrimSuffix(e.Name(), "."+ext)); err == nil && n > maxFid[ext] {
+							maxFid[ext] = n
+						}
 					}
 				}
 			}
 		}
-		name := fmt.Sprintf("%05d.mem", maxFid+1)
-		row["file"] = name
-		if err := os.WriteFile(dir+"/"+name, nil, 0600); err != nil {
-			t.Fatal(err)
+		var names []string
+		for _, ext := range plant {
+			maxFid[ext]++
+			name := fmt.Sprintf("%05d.mem", maxFid[ext])
+			if ext == "vlog" {
+				name = fmt.Sprintf("%06d.vlog", maxFid[ext])
+			}
+			if err := os.WriteFile(dir+"/"+name, nil, 0600); err != nil {
+				t.Fatal(err)
+			}
+			names = append(names, name)
 		}
+		row["files"] = names
 		d, err := Open(dir)
 		row["reopen_ok"] = err == nil
 		if err != nil {
@@ -478,9 +549,10 @@ func TestVerifC16(t *testing.T) {
 				e = e[:i]
 			}
 			row["error"] = e
-			mon = append(mon, "the store did not reopen on what a kill inside memtable file creation leaves (zero-length "+name+"): "+e)
-			d, err = Open(dir)
-			row["second_reopen_ok"] = err == nil
+			mon = append(mon, fmt.Sprintf("the store did not reopen on what a kill inside the creation / deletion of badger's log files leaves (zero-length %v): %s", names, e))
+			for k := 0; k < 8 && err != nil; k++ { // leave a usable store for the rest of the run
+				d, err = Open(dir)
+			}
 		}
 		if err == nil {
 			missing := 0
@@ -494,7 +566,7 @@ func TestVerifC16(t *testing.T) {
 			}
 			row["missing_after"] = missing
 			if missing > 0 {
-				mon = append(mon, fmt.Sprintf("%d sampled VAAs, present after an earlier reopen, are missing or different after reopening on a zero-length %s", missing, name))
+				mon = append(mon, fmt.Sprintf("%d sampled VAAs, present after an earlier reopen, are missing or different after reopening on zero-length %v", missing, names))
 			}
 			d.Close()
 		}
